@@ -624,6 +624,14 @@ theorem restart_inv {s : Sys} (hinv : Inv s) (alive : Bool) :
     intro w _
     cases alive <;> rfl
 
+/-- what the kernel gives a new thread encodes the empty list whenever its parent's registers do -/
+theorem encodes_kernelNew {m : Img} (h : Encodes m []) : Encodes (kernelNewThread m) [] where
+  enabled := h.enabled
+  fields := by intro i _ w hw; simp at hw
+  global := h.global
+  ge := h.ge
+  le := h.le
+
 /-- a thread registered by either handler receives `last_seen_state`, which encodes the list -/
 theorem register_inv {s : Sys} (hinv : Inv s) (t : Nat) : Inv (register s t) := by
   refine ⟨hinv.reg, hinv.main, ?_, hinv.last, hinv.lastNone⟩
@@ -632,10 +640,13 @@ theorem register_inv {s : Sys} (hinv : Inv s) (t : Nat) : Inv (register s t) := 
   rcases List.mem_append.1 hx with hx | hx
   · exact hinv.others x hx
   · simp only [List.mem_singleton] at hx; subst hx
-    show Encodes (s.last.getD {}) s.wps
+    show Encodes (s.last.getD (kernelNewThread s.main)) s.wps
     cases hl : s.last with
     | some l => exact hinv.last l hl
-    | none => rw [hinv.lastNone hl]; exact encodes_zero
+    | none =>
+      have hm := hinv.main
+      rw [hinv.lastNone hl] at hm ⊢
+      exact encodes_kernelNew hm
 
 theorem step_inv {s : Sys} (hinv : Inv s) (op : Op) : Inv (step s op).2 := by
   cases op with
@@ -653,7 +664,10 @@ theorem step_inv {s : Sys} (hinv : Inv s) (op : Op) : Inv (step s op).2 := by
     · simp only [List.mem_singleton] at ht; subst ht
       cases hl : s.last with
       | some l => exact hinv.last l hl
-      | none => rw [hinv.lastNone hl]; exact encodes_zero
+      | none =>
+        have hm := hinv.main
+        rw [hinv.lastNone hl] at hm ⊢
+        exact encodes_kernelNew hm
   | threadExit i =>
     simp only [step]
     exact ⟨hinv.reg, hinv.main, fun t ht => hinv.others t (List.mem_of_mem_eraseIdx ht), hinv.last, hinv.lastNone⟩
